@@ -5,17 +5,19 @@
 // on cases generated from one seeded PRNG and writes cases.tsv (the model's stdin) + impl.out.
 //
 // Case lines (tab separated, first field = id):
-//   N term index                     checkpoint directory name
-//   C nameA nameB                    CheckpointSortNames.Less
-//   P keep latest names              purgeOldCheckpoint on a directory with these entries -> names left
-//   L skip names matching            GetLatestCheckpoint
-//   F cur ck                         restoreFromPath's file plan on crafted directories (mem engine)
-//   TB keepA keepB hA hB             begin of a value-level trace on two stores (h = observed value id)
-//   TO W s h | B s t i h | G s dg h | R s t i | Y s t i | S s i | O s t i | X s | Z s h    one op of the trace
-//      V s t i = copy (t,i) of store s into the other store's rocksdb_backup/remote; M s t i = RestoreFromRemoteBackup
-//   (TO F s t i = store s runs kvStoreSM.PrepareSnapshot(t,i): asks the other store, reuses, copies)
-//   E eng r1 r2                      fetch scenario with a lineage reset at the source (sst numbers reused)
-//   K at                             K1 probe (writes racing with the checkpoint copy)
+//
+//	N term index                     checkpoint directory name
+//	C nameA nameB                    CheckpointSortNames.Less
+//	P keep latest names              purgeOldCheckpoint on a directory with these entries -> names left
+//	L skip names matching            GetLatestCheckpoint
+//	F cur ck                         restoreFromPath's file plan on crafted directories (mem engine)
+//	TB keepA keepB hA hB             begin of a value-level trace on two stores (h = observed value id)
+//	TO W s h | B s t i h | G s dg h | R s t i | Y s t i | S s i | O s t i | X s | Z s h    one op of the trace
+//	   V s t i = copy (t,i) of store s into the other store's rocksdb_backup/remote; M s t i = RestoreFromRemoteBackup
+//	(TO F s t i = store s runs kvStoreSM.PrepareSnapshot(t,i): asks the other store, reuses, copies)
+//	E eng r1 r2                      fetch scenario with a lineage reset at the source (sst numbers reused)
+//	K at                             K1 probe (writes racing with the checkpoint copy)
+//
 // Value ids (h) and checkpoint digests (dg) are OBSERVATIONS of the implementation handed to the
 // model, which is parametric in what a write does. They appear on the ops that may legitimately
 // change the engine content: writes, and the ops that flush the in-memory HyperLogLog write cache
@@ -38,6 +40,7 @@ import (
 	"strconv"
 	"strings"
 
+	"github.com/youzan/ZanRedisDB/engine"
 	"github.com/youzan/ZanRedisDB/rockredis"
 	"verif/harness/internal/hx"
 	"verif/harness/internal/smx"
@@ -49,7 +52,9 @@ var (
 	nPlan   = flag.Int("nplan", 150, "number of restore file-plan cases")
 	nTrace  = flag.Int("ntrace", 2, "value-level traces per engine and kind")
 	lenTr   = flag.Int("tracelen", 40, "ops per trace")
+	memType = flag.String("memtype", "", "index of the mem engine: radix (shipped default), btree, skiplist")
 	exh     = flag.Bool("exh", false, "add the exhaustive small-scope purge/latest cases")
+	nInter  = flag.Int("ninter", 40, "trials of the apply-loop interleaving per engine (case kind I)")
 	nFetch  = flag.Int("nfetch", 1, "fetch-after-lineage-reset scenarios per engine")
 	engines = flag.String("engines", "pebble,rocksdb,mem", "engines for the traces")
 	k1engs  = flag.String("k1", "pebble", "engines for the K1 probe (comma separated, empty = none)")
@@ -333,6 +338,11 @@ func generate(r *hx.Rng) []cs {
 			cases = append(cases, cs{id: next(), kind: "E", f: []string{e, fmt.Sprint(r.Pick(6)), fmt.Sprint(r.Pick(6))}})
 		}
 	}
+	for _, e := range strings.Split(*engines, ",") {
+		if e != "" && *nInter > 0 {
+			cases = append(cases, cs{id: next(), kind: "I", f: []string{e, fmt.Sprint(*nInter), fmt.Sprint(r.Int63n(1 << 40))}})
+		}
+	}
 	for _, e := range strings.Split(*k1engs, ",") {
 		if e != "" && e != "none" {
 			cases = append(cases, cs{id: next(), kind: "K", f: []string{e, fmt.Sprint(*k1mb), "300"}})
@@ -390,6 +400,9 @@ func main() {
 		return
 	}
 	smx.Quiet()
+	if *memType != "" && !engine.VerifSetMemType(*memType) {
+		log.Fatalf("unknown mem type %q", *memType)
+	}
 	if *probe != "" {
 		if strings.HasPrefix(*probe, "fetch:") {
 			probeFetch(strings.TrimPrefix(*probe, "fetch:"))
@@ -462,6 +475,19 @@ func main() {
 			io.Printf("%s\t%s\n", c.id, out)
 			if coll != "" {
 				fmt.Fprintf(os.Stderr, "E %s r1=%d r2=%d sst number reused with other content:%s\n", c.f[0], r1, r2, coll)
+			}
+		case "I":
+			n, _ := strconv.Atoi(c.f[1])
+			sd, _ := strconv.ParseInt(c.f[2], 10, 64)
+			tr, bad, first, err := interleave(c.f[0], n, sd)
+			co.Printf("%s\tI\t%s\t%s\t%s\n", c.id, c.f[0], c.f[1], c.f[2])
+			if err != nil {
+				io.Printf("%s\terr after %d trials: %v\n", c.id, tr, err)
+			} else {
+				io.Printf("%s\ttrials=%d later_writes_visible=%d\n", c.id, tr, bad)
+				if bad > 0 {
+					fmt.Fprintf(os.Stderr, "I %s: %d of %d checkpoints contained writes applied after their index (first: trial %d)\n", c.f[0], bad, tr, first)
+				}
 			}
 		case "T":
 			runTrace(c.id, c.tr, co, io, sk)
